@@ -156,6 +156,36 @@ fn depth2(ctx: &mut Ctx, stride: usize) {
     }
 }
 
+/// Both operands of a binary node are the *same* expression (a field, an index step, a symbol-free path into the input): the
+/// result must be what the operator table gives for (v, v) — a shortcut for structurally identical operands would show here.
+fn identical_operands(ctx: &mut Ctx) {
+    let pool = workload::the_pool();
+    ctx.align();
+    for v in pool.all.iter() {
+        let facts = Value::Map(
+            [("a".to_string(), v.clone()), ("xs".to_string(), Value::Vec(vec![v.clone(), v.clone()])), ("m".to_string(), Value::Map([("k".to_string(), v.clone())].into_iter().collect()))].into_iter().collect(),
+        );
+        for (_, b) in BINARY.iter() {
+            if !ctx.mine() {
+                continue;
+            }
+            let operands = [
+                Expr::Reference("a".to_string()),
+                Expr::index(Expr::Reference("xs".to_string()), reval::expr::Index::from(0usize)),
+                Expr::index(Expr::Reference("xs".to_string()), reval::expr::Index::from(1usize)),
+                Expr::index(Expr::Reference("m".to_string()), reval::expr::Index::from("k")),
+                Expr::index(Expr::Reference("facts".to_string()), reval::expr::Index::from("a")),
+            ];
+            for o in &operands {
+                let e = b(o.clone(), o.clone());
+                judge(ctx, Case { expr: &e, facts: &facts, cell: String::new(), family: "identical-operands" });
+            }
+            let e = b(operands[1].clone(), operands[2].clone());
+            judge(ctx, Case { expr: &e, facts: &facts, cell: String::new(), family: "identical-operands" });
+        }
+    }
+}
+
 fn run(ctx: &mut Ctx) {
     if ctx.shard == 0 {
         canaries(ctx);
@@ -171,6 +201,7 @@ fn run(ctx: &mut Ctx) {
     workload::deep_expressions(ctx, &mut j);
     // quick: a 1/16 systematic sample of the depth-2 product; thorough: all of unary/binary mixes
     // and 1/8 of binary-in-binary (17*17*34^3*2 = 22.7 M would be the full product)
+    identical_operands(ctx);
     depth2(ctx, ctx.tier.of(4, 1));
     let n = ctx.tier.of(400_000, 12_000_000);
     workload::random(ctx, &pool, n, ctx.tier.of(5, 6), &mut j);
